@@ -36,7 +36,20 @@ class C21(FlowCheck):
             'independent Python reference interpreter (oracle). non-trivial = some output or a message')
 
     def corpus(self):
+        # histories: a stop inside a handler must leave handler mode (seed C21c); what a stop leaves behind
+        demo = [L(10), ['OEG', 100], L(20), ['P', 1], ['ERR', 5], ['P', 2], L(30), ['P', 3], ['END'],
+                L(100), ['IF', ['=', V(7), 0], None], ['=', 7, 1], ['ERR', 6],
+                L(110), ['P', 'ERR'], ['P', 'ERL'], ['RES', 'N']]
         return [
+            {'k': 'flat', 'prog': demo, 'cmds': [None, [['G', 10]]]},
+            {'k': 'flat', 'prog': demo, 'cmds': [None, [['ERR', 8], ['P', 9]], [['P', 'ERR'], ['P', 'ERL']]]},
+            {'k': 'flat', 'prog': [L(10), ['OEG', 100], L(20), ['ERR', 5], ['P', 2], L(30), ['END'],
+                                   L(100), ['IF', ['=', V(7), 0], None], ['=', 7, 1], ['OEG', 0],
+                                   L(110), ['P', 'ERR'], ['RES', 'N']],
+             'cmds': [None, [['G', 10]], [['RES', 'N']]]},
+            {'k': 'flat', 'prog': [L(10), ['OEG', 100], L(20), ['ERR', 5], ['P', 2], L(30), ['END'],
+                                   L(100), ['P', 'ERL']],
+             'cmds': [None, [['ERR', 7], ['P', 4]], [['RES', 'N']], None]},
             flat([L(10), ['OEG', 900], L(20), ['ERR', 5], ['P', 3], L(40), ['END']] + H + [['RES', 'N']]),
             flat([L(10), ['OEG', 900], L(20), ['=', 0, 1], ['P', ['\\', 10, V(1)]], ['P', 3], L(40), ['END']] + H +
                  [['=', 1, 2], ['RES', 'S']]),
@@ -77,7 +90,7 @@ class C21(FlowCheck):
         rng = self.rng
         out = []
         for i in range(n):
-            out.append(G.gen_trap(rng))
+            out.append(G.gen_trap_session(rng) if i % 4 == 3 else G.gen_trap(rng))
         self.count(out)
         return out
 
